@@ -301,6 +301,8 @@ def explore(ctx, scale=1.0):
                             nm = parser._get_include_filename(line)
                         except Exception:
                             continue
+                        if nm is None:
+                            continue
                         resolve[nm] = nm if os.path.isabs(nm) else os.path.abspath(os.path.join(root, nm))
             reqs.append({"op": "includes", "files": files, "resolve": [[k, v] for k, v in resolve.items()], "nested": 0, "text": texts["root.map"]})
             keep.append((rep, real))
@@ -308,6 +310,14 @@ def explore(ctx, scale=1.0):
         os.chdir(old_cwd)
         shutil.rmtree(base, ignore_errors=True)
         shutil.rmtree(other_cwd, ignore_errors=True)
+    # INCLUDE lines that name no file stay where they are (the parser then reports the syntax error)
+    for text in ("MAP\nINCLUDE\nEND", "MAP\n  include   # nothing\n  NAME 'x'\nEND", "INCLUDE", "LAYER\nINCLUDE\t\nINCLUDE\nEND"):
+        try:
+            real = {"ok": parser.load_includes(text, fn=os.path.join(old_cwd, "root.map"))}
+        except Exception as ex:
+            real = {"err": "IOError" if isinstance(ex, OSError) else type(ex).__name__}
+        reqs.append({"op": "includes", "files": [], "resolve": [], "nested": 0, "text": text})
+        keep.append(({"root_text": text, "files": {}, "variant": "nameless INCLUDE line", "depth": 0}, real))
     answers = core.lean_call(reqs)
     for (rep, real), ans in zip(keep, answers):
         if ans == real:
@@ -315,7 +325,7 @@ def explore(ctx, scale=1.0):
         else:
             ctx.corr_diff("includes", {k: rep[k] for k in ("root_text", "files", "variant", "depth")}, str(ans)[:300], str(real)[:300])
     # include-name extraction on hand-made lines
-    lines = ['INCLUDE "a.map"', "include 'b c.map' # x", "  Include  plain.map", 'INCLUDE "q.map"#c', "INCLUDE 'x.map' 'y.map'", 'include\t"t.map"']
+    lines = ['INCLUDE "a.map"', "include 'b c.map' # x", "  Include  plain.map", 'INCLUDE "q.map"#c', "INCLUDE 'x.map' 'y.map'", 'include\t"t.map"', "INCLUDE", "  include   # nothing", "INCLUDE\t", "include#x.map"]
     ans = core.lean_call([{"op": "include_name", "line": l} for l in lines])
     for l, a in zip(lines, ans):
         try:
